@@ -72,9 +72,11 @@ var c05Contexts = map[string]string{
 	"multiuse":  `try numbers(5).multiUse({u:l->l.map(z->@).size(),v:l->l.size()}).v catch 7`,
 	"multiuse2": `try numbers(5).map(z->@).multiUse({u:l->l.size(),v:l->l.first()}).v catch 7`,
 	"listeq":    `try numbers(3).map(z->@)=[1,2,3] catch 7`,
+	"mulazy":    `try numbers(5).multiUse({u:l->l.map(z->@),v:l->l.size()}).v catch 7`,
+	"mulazy2":   `try numbers(5).multiUse({u:l->[@].map(z->z),v:l->l.size()}).v catch 7`,
 }
 
-var c05ContextOrder = []string{"top", "closure", "try", "tryclo", "trynested", "seqmap", "seqacc", "parmap", "paracc", "pardown", "mergeop", "mergefn", "multiuse", "multiuse2", "listeq"}
+var c05ContextOrder = []string{"top", "closure", "try", "tryclo", "trynested", "seqmap", "seqacc", "parmap", "paracc", "pardown", "mergeop", "mergefn", "multiuse", "multiuse2", "listeq", "mulazy"}
 
 func c05Jobs(tier string, seed int64) []string {
 	var jobs []string
@@ -102,7 +104,7 @@ func c05Jobs(tier string, seed int64) []string {
 	for pi, p := range c05Poison {
 		for ci, c := range c05Consumers {
 			// quick: NaN and the infinities against every consumer, the other poisons sampled
-			if tier != "thorough" && pi > 2 && (pi+ci+int(seed))%4 != 0 {
+			if tier != "thorough" && pi > 4 && (pi+ci+int(seed))%4 != 0 {
 				continue
 			}
 			jobs = append(jobs, "@numcpu=4,noleak=1,steps=60000000,expect=initParallel@coll|"+p+"|"+c)
@@ -113,14 +115,14 @@ func c05Jobs(tier string, seed int64) []string {
 
 // poisoned elements behind a forced-parallel stage: the consuming stage or terminal runs its own
 // (library) code on the collector goroutine, where a panic would not pass any closure wrapper
-var c05Poison = []string{`0/0`, `1/0`, `0-1/0`, `"s"`, `[z]`, `{k:z}`, `true`, `x->x`, `1e300*1e300`, `0.5`}
+var c05Poison = []string{`0/0`, `1/0`, `0-1/0`, `[1,2,3].eval().skip(0-2-z*0)`, `numbers(4).eval().top(0-1-z*0)`, `"s"`, `[z]`, `{k:z}`, `true`, `x->x`, `1e300*1e300`, `0.5`}
 var c05Consumers = []string{
 	`sum()`, `mean()`, `reduce((p,q)->p+q)`, `order(x->x).size()`, `orderRev(x->x).first()`, `orderLess((p,q)->p<q).size()`, `minMax(x->x).min`, `min()`, `max()`,
 	`binning(0,1,3,x->x,x->1).values.size()`, `binning(0,5,40,x->x,x->x).values.size()`, `map(x->{x:x,y:x}).binning2d(0,1,3,0,1,3,e->e.x,e->e.y,e->1).values.size()`,
 	`groupByInt(x->x).size()`, `groupByString(x->"k"+x).size()`, `groupByEqual(x->x).size()`, `uniqueInt(x->x).size()`, `uniqueString(x->""+x).size()`,
 	`combine((p,q)->p+q).sum()`, `iir(x->x,(x,l)->l+x).last()`, `movingWindow(x->x).size()`, `compact((p,q)->p=q).size()`, `top(25).size()`, `string()`,
 	`mapReduce(0,(s,x)->s+x)`, `visit(0,(v,x)->v+x)`, `indexWhere(x->x>100)`, `present(x->x<0)`, `number((i,x)->i+x).sum()`, `fsm((s,x)->goto(x%2)).size()`,
-	`createInterpolation(x->x,x->x)(3)`, `linearReg(x->x,x->x).a`, `accept(x->x>0).size()`, `[300] ~ numbers(3)`, `cross([1],(p,q)->p+q).sum()`, `reverse().first()`, `set(3,1).size()`, `append(1).size()`, `eval().skip(0-3).size()`, `eval().top(0-3).size()`, `eval().skip(100).size()`,
+	`createInterpolation(x->x,x->x)(3)`, `linearReg(x->x,x->x).a`, `accept(x->x>0).size()`, `[300] ~ numbers(3)`, `cross([1],(p,q)->p+q).sum()`, `reverse().first()`, `set(3,1).size()`, `append(1).size()`, `eval().skip(0-3).size()`, `map(x->[x]).string()`, `multiUse({u:l->l.map(x->x),v:l->l.size()}).u.string()`, `eval().top(0-3).size()`, `eval().skip(100).size()`,
 }
 
 func c05Generator() *value.FunctionGenerator {
